@@ -24,49 +24,7 @@ func ruleDetectTable(c *Ctx) {
 		c.und("anchors", 0, "fenceMatch, makemsg or fenceMatchObject not found")
 		return
 	}
-	// the parameter of the message builder that is written after the literal `"detect":"`
-	detIdx := -1
-	{
-		info := mk.Info()
-		params := map[types.Object]int{}
-		sig := mk.Obj.Type().(*types.Signature)
-		for i := 0; i < sig.Params().Len(); i++ {
-			params[sig.Params().At(i)] = i
-		}
-		hasLit := func(n ast.Node) bool {
-			found := false
-			ast.Inspect(n, func(x ast.Node) bool {
-				if bl, ok := x.(*ast.BasicLit); ok {
-					if s, ok := constString(info, bl); ok && strings.Contains(s, `"detect":"`) {
-						found = true
-					}
-				}
-				return true
-			})
-			return found
-		}
-		ast.Inspect(mk.Decl.Body, func(n ast.Node) bool {
-			call, ok := n.(*ast.CallExpr)
-			if !ok || len(call.Args) != 2 {
-				return true
-			}
-			if id, ok := ast.Unparen(call.Fun).(*ast.Ident); !ok || id.Name != "append" {
-				return true
-			}
-			if pid, ok := ast.Unparen(call.Args[1]).(*ast.Ident); ok && hasLit(call.Args[0]) {
-				if i, isP := params[info.ObjectOf(pid)]; isP && detIdx < 0 {
-					// the innermost append whose base carries the literal
-					if inner, ok := ast.Unparen(call.Args[0]).(*ast.CallExpr); !ok || !hasLit(inner.Args[0]) || len(inner.Args) < 2 || func() bool {
-						_, isP2 := params[info.ObjectOf(identOf(inner.Args[len(inner.Args)-1]))]
-						return !isP2
-					}() {
-						detIdx = i
-					}
-				}
-			}
-			return true
-		})
-	}
+	detIdx := makemsgDetectIndex(c, mk)
 	if detIdx < 0 {
 		c.und("anchors", mk.Decl.Pos(), "the parameter of makemsg that is written after `\"detect\":\"` was not identified")
 		return
@@ -372,4 +330,52 @@ func ruleDetectTable(c *Ctx) {
 	}
 	c.stat("detect_table_leaves", totalLeaves)
 	c.stat("detect_table_scenarios", len(scens)+2)
+}
+
+// makemsgDetectIndex: the index of the message builder's parameter that is written after the literal `"detect":"`.
+func makemsgDetectIndex(c *Ctx, mk *FuncInfo) int {
+	// the parameter of the message builder that is written after the literal `"detect":"`
+	detIdx := -1
+	{
+		info := mk.Info()
+		params := map[types.Object]int{}
+		sig := mk.Obj.Type().(*types.Signature)
+		for i := 0; i < sig.Params().Len(); i++ {
+			params[sig.Params().At(i)] = i
+		}
+		hasLit := func(n ast.Node) bool {
+			found := false
+			ast.Inspect(n, func(x ast.Node) bool {
+				if bl, ok := x.(*ast.BasicLit); ok {
+					if s, ok := constString(info, bl); ok && strings.Contains(s, `"detect":"`) {
+						found = true
+					}
+				}
+				return true
+			})
+			return found
+		}
+		ast.Inspect(mk.Decl.Body, func(n ast.Node) bool {
+			call, ok := n.(*ast.CallExpr)
+			if !ok || len(call.Args) != 2 {
+				return true
+			}
+			if id, ok := ast.Unparen(call.Fun).(*ast.Ident); !ok || id.Name != "append" {
+				return true
+			}
+			if pid, ok := ast.Unparen(call.Args[1]).(*ast.Ident); ok && hasLit(call.Args[0]) {
+				if i, isP := params[info.ObjectOf(pid)]; isP && detIdx < 0 {
+					// the innermost append whose base carries the literal
+					if inner, ok := ast.Unparen(call.Args[0]).(*ast.CallExpr); !ok || !hasLit(inner.Args[0]) || len(inner.Args) < 2 || func() bool {
+						_, isP2 := params[info.ObjectOf(identOf(inner.Args[len(inner.Args)-1]))]
+						return !isP2
+					}() {
+						detIdx = i
+					}
+				}
+			}
+			return true
+		})
+	}
+	return detIdx
 }
